@@ -43,6 +43,15 @@ func RedirectTable() map[string]string {
 	in.Redirect["flag.Parse"] = "vstubFlagParse"
 	in.Redirect["flag.Args"] = "vstubFlagArgs"
 	in.Redirect["github.com/elastic/go-ucfg/yaml.NewConfigWithFile"] = "vstubNewConfigWithFile"
+	in.Redirect["github.com/elastic/go-ucfg/yaml.NewConfig"] = "vstubNewConfig"
+	in.Redirect["io.ReadAll"] = "vstubReadAll"
+	in.Redirect["io.ReadFull"] = "vstubReadFull"
+	in.Redirect["path/filepath.Glob"] = "vstubGlob"
+	in.Redirect["github.com/elastic/go-ucfg.MetaData"] = "vstubMetaData"
+	in.Redirect["github.com/elastic/go-ucfg.PathSep"] = "vstubPathSep"
+	in.Redirect["io/ioutil.ReadAll"] = "vstubReadAll"
+	in.Redirect["io/ioutil.ReadFile"] = "vstubReadFile"
+	in.Redirect["io.LimitReader"] = "vstubLimitReader"
 	in.Redirect["(*github.com/elastic/go-ucfg.Config).Unpack"] = "vstubUnpack"
 	in.Redirect[Module+".LoadFilter"] = "vstubLoadFilter"
 	in.Redirect["os/exec.Command"] = "vstubCommand"
